@@ -280,6 +280,42 @@ Verdict IoEngine::exec_local(const Plan& plan, const std::string& B, const std::
   // clause 4: documents that follow the grammar are accepted
   if (valid_claim && va.refused)
     return Verdict::fail("C11:valid-document-refused:local", 0, fmt("a valid document (corpus document with validity-preserving edits only) was refused: %s line %ld", va.category.c_str(), va.line));
+  // class (iv): writer and reader as a pipeline.  What this very run wrote with --xml (or --html) goes to the result
+  // reader, whole, cut short at a byte or delivered in two pieces.  Held to clauses 1-3 only; whether the reader takes
+  // the writer's own complete document is counted, not judged (a writer fault is not C11's subject).
+  long long pipe = plan.geti("pipe", 0);
+  if (pipe > 0) {
+    const std::string* doc = nullptr; bool html = false;
+    // which stream holds an adjustment-result document, and nothing else
+    int to_stdout = 0; std::string xml_to, html_to;
+    for (size_t i = 1; i < args.size(); i++) {
+      if (args[i].compare(0, 2, "--") != 0) continue;
+      if (i + 1 < args.size() && args[i + 1] == "-") to_stdout++;
+      if (args[i] == "--verbose") to_stdout++;           // progress messages share the standard output
+      if (i + 1 < args.size()) { if (args[i] == "--xml") xml_to = args[i + 1]; else if (args[i] == "--html") html_to = args[i + 1]; }
+    }
+    if (xml_index >= 0 && (size_t)xml_index < A.files.size() && !A.files[xml_index].empty()) doc = &A.files[xml_index];
+    else if (xml_to == "-" && to_stdout == 1 && A.out.compare(0, 5, "<?xml") == 0) doc = &A.out;
+    else if (html_to == "-" && to_stdout == 1 && A.out.compare(0, 5, "<?xml") == 0 && A.out.find("<html") != std::string::npos) { doc = &A.out; html = true; }
+    if (doc && doc->size() < 200000) {
+      std::string W = *doc; long long mode = pipe % 3, at = (pipe / 3) % (long long)(W.size() + 1);
+      std::vector<size_t> plens; bool perr = false;
+      if (mode == 1) W.resize((size_t)at);
+      else if (mode == 2 && at > 0 && (size_t)at < W.size()) { plens.push_back((size_t)at); perr = (pipe / 7) % 4 == 0; }
+      iotargets::Outcome o = iotargets::run_adjres(W, plens, perr, html);
+      st.add("pipeline_reads"); st.add(fmt("pipeline_reads.mode%lld", mode));
+      log.line("pipe %s mode=%lld at=%lld -> %s line=%ld again=%ld", html ? "html" : "xml", mode, at, o.kind.c_str(), o.line, o.reads_after_end);
+      st.state("verdicts", fmt("pipe/%s/%lld/%s", html ? "html" : "xml", mode, o.kind.c_str()));
+      if (o.reads_after_end > 3) return Verdict::fail("C11:spin-on-dead-stream:pipeline", 0, fmt("%ld further reads after end of stream", o.reads_after_end));
+      if (o.kind == "parser") {
+        long nl = 1; for (char c : W) if (c == '\n') nl++;
+        if (o.line < 1 || o.line > nl + 1) return Verdict::fail(fmt("C11:%s:pipeline", o.line < 1 ? "refusal-without-line" : "line-out-of-range"), 0, fmt("result reader names line %ld (%ld lines written by this run): %s", o.line, nl, o.what.c_str()));
+        if (mode == 0 && !va.refused && A.exit_code == 0) { st.add("pipeline_own_output_refused"); if (getenv("VERIF_PIPE_GATING")) return Verdict::fail("C11:pipeline:own-output-refused:" + iotargets::slug(o.what), 0, fmt("line %ld: %s", o.line, o.what.c_str())); }
+      } else if (o.kind != "ok" && o.kind != "resource")
+        return Verdict::fail(fmt("C11:refusal-without-line:pipeline:%s", o.kind.c_str()), 0, o.what);
+      else if (mode == 0) st.add("pipeline_own_output_accepted");
+    }
+  }
   return Verdict();
 }
 
@@ -542,7 +578,7 @@ Plan IoEngine::generate(uint64_t seed, uint64_t index, const std::string& tier)
   p.set("name", pool[di].name);
   p.set("doc", to_hex(D));
   int xmlfile = -1;
-  if (target == "local") { p.set("args", gen_args(g, xmlfile)); p.seti("xmlfile", xmlfile); }
+  if (target == "local") { p.set("args", gen_args(g, xmlfile)); p.seti("xmlfile", xmlfile); if (g.chance(1, 3)) p.seti("pipe", 1 + (long long)g.below(3000000)); }
   xmlscan::Scan S = xmlscan::scan(D);
   int cls = (int)g.below(10);
   auto step = [&](const char* op, std::initializer_list<long long> a) { Step s; s.op = op; s.a = a; p.steps.push_back(s); };
@@ -585,6 +621,7 @@ std::vector<Plan> IoEngine::simplify(const Plan& p)
 {
   std::vector<Plan> out;
   if (p.geti("refill", 0)) { Plan c = p; c.seti("refill", 0); out.push_back(c); }
+  if (p.geti("pipe", 0)) { Plan c = p; c.seti("pipe", 0); out.push_back(c); }
   if (p.get("target") == "local" && p.get("args") != "- --xml -") {
     Plan c = p; c.set("args", "- --xml -"); c.seti("xmlfile", -1); out.push_back(c);
     // drop one option (and its value) at a time
